@@ -1,7 +1,506 @@
 package main
 
-func prepareMetricCase(c *ACase, seed int64) *prepared {
-	return &prepared{c: c, out: &caseOutcome{infra: "metric cases not implemented"}}
+import (
+	"encoding/json"
+	"fmt"
+	"math"
+	"sort"
+	"strconv"
+	"strings"
+	"time"
+)
+
+// ---------------------------------------------------------------------------------------------------------------
+// C08: metric queries. The abstract case carries q.mq (range function, range, step, unit, groupings, vector
+// aggregation, comparisons, topk) and the series the definition (LogQLSem!EvalMetric) yields: per series the points
+// [t (tick), num/den (abstract rational), opt]. The concretiser fixes: seconds per tick = unit, the scale of byte
+// lengths (lines are padded to lenUnit * len bytes) and of unwrapped numbers (n_k = k * u for a dyadic u), so that
+// concrete value = num * scale / (den * (unit if the function is per second)).
+// ---------------------------------------------------------------------------------------------------------------
+
+type AMq struct {
+	Fn    string   `json:"fn"`
+	Range int      `json:"range"`
+	Step  int      `json:"step"`
+	Unit  int      `json:"unit"`
+	UGrp  string   `json:"ugrp"`
+	UGrpL []string `json:"uglbls"`
+	Agg   string   `json:"agg"`
+	Grp   string   `json:"grp"`
+	GPos  string   `json:"gpos"`
+	GrpL  []string `json:"glbls"`
+	CmpL  ACmp     `json:"cmpl"`
+	CmpA  ACmp     `json:"cmpa"`
+	TopFn string   `json:"topfn"`
+	TopK  int      `json:"topk"`
 }
 
-func runMetricCase(w *World, p *prepared) *caseOutcome { return p.out }
+type ACmp struct {
+	Op string `json:"op"`
+	K4 int    `json:"k4"`
+}
+
+type MPoint struct {
+	T   int  `json:"t"`
+	Num int  `json:"num"`
+	Den int  `json:"den"`
+	Opt bool `json:"opt"`
+}
+
+type MSeries struct {
+	Lbls map[string]string `json:"lbls"`
+	Pts  []MPoint          `json:"pts"`
+}
+
+const lenUnit = 160 // bytes per abstract length unit
+
+var linearNumPool = []float64{1, 0.25, 2.5, 4}
+
+func fnum(x float64) string { return strconv.FormatFloat(x, 'f', -1, 64) }
+
+func isRate(fn string) bool { return fn == "rate" || fn == "bytes_rate" || fn == "rate_unwrap" }
+func isUnwrapFn(fn string) bool {
+	switch fn {
+	case "sum_over_time", "avg_over_time", "min_over_time", "max_over_time", "first_over_time", "last_over_time", "rate_unwrap":
+		return true
+	}
+	return false
+}
+
+func (k *Conc) durText(sec int) string {
+	if sec%3600 == 0 && k.rng.Intn(2) == 0 {
+		return fmt.Sprintf("%dh", sec/3600)
+	}
+	if sec%60 == 0 && k.rng.Intn(2) == 0 {
+		return fmt.Sprintf("%dm", sec/60)
+	}
+	if k.rng.Intn(4) == 0 {
+		return fmt.Sprintf("%dms", sec*1000)
+	}
+	return fmt.Sprintf("%ds", sec)
+}
+
+func (k *Conc) groupText(kind string, names []string) string {
+	var ns []string
+	for _, n := range names {
+		ns = append(ns, k.Name[n])
+	}
+	sort.Strings(ns)
+	return fmt.Sprintf("%s (%s)", kind, strings.Join(ns, ", "))
+}
+
+// thresholdText renders k4/4 (per second for a rate) with at most 6 decimals (the planner prints %f).
+func thresholdText(mq *AMq, c ACmp) string {
+	v := float64(c.K4) / 4
+	if isRate(mq.Fn) {
+		v /= float64(mq.Range * mq.Unit)
+	}
+	return strconv.FormatFloat(math.Round(v*1e6)/1e6, 'f', -1, 64)
+}
+
+func (k *Conc) metricQueryText(q *AQuery, mq *AMq) string {
+	fn := mq.Fn
+	if fn == "rate_unwrap" {
+		fn = "rate"
+	}
+	inner := k.logSelectorAndPipe(q)
+	rng := "[" + k.durText(mq.Range*mq.Unit) + "]"
+	s := ""
+	if mq.UGrp != "" {
+		if k.rng.Intn(2) == 0 {
+			s = fmt.Sprintf("%s %s (%s %s)", fn, k.groupText(mq.UGrp, mq.UGrpL), inner, rng)
+		} else {
+			s = fmt.Sprintf("%s(%s %s) %s", fn, inner, rng, k.groupText(mq.UGrp, mq.UGrpL))
+		}
+	} else {
+		s = fmt.Sprintf("%s(%s %s)", fn, inner, rng)
+	}
+	if mq.CmpL.Op != "" {
+		s += " " + mq.CmpL.Op + " " + thresholdText(mq, mq.CmpL)
+	}
+	if mq.Agg != "" {
+		switch {
+		case mq.Grp == "":
+			s = fmt.Sprintf("%s(%s)", mq.Agg, s)
+		case mq.GPos == "prefix":
+			s = fmt.Sprintf("%s %s (%s)", mq.Agg, k.groupText(mq.Grp, mq.GrpL), s)
+		default:
+			s = fmt.Sprintf("%s(%s) %s", mq.Agg, s, k.groupText(mq.Grp, mq.GrpL))
+		}
+		if mq.CmpA.Op != "" {
+			s += " " + mq.CmpA.Op + " " + thresholdText(mq, mq.CmpA)
+		}
+	}
+	if mq.TopFn != "" {
+		s = fmt.Sprintf("%s(%d, %s)", mq.TopFn, mq.TopK, s)
+	}
+	return s
+}
+
+func pad(line, fmtKind string, want int) (string, bool) {
+	if len(line) > want {
+		return line, false
+	}
+	n := want - len(line)
+	if n == 0 {
+		return line, true
+	}
+	if fmtKind == "json" {
+		// ,"pad":"~~~" before the closing brace: needs at least 9 bytes
+		if n < 9 {
+			return line, false
+		}
+		return line[:len(line)-1] + `,"pad":"` + strings.Repeat("~", n-9) + `"}`, true
+	}
+	return line + " " + strings.Repeat("~", n-1), true
+}
+
+func prepareMetricCase(c *ACase, seed int64) *prepared {
+	out := &caseOutcome{}
+	p := &prepared{c: c, out: out}
+	var mq AMq
+	if err := json.Unmarshal(c.Q.MqRaw, &mq); err != nil {
+		out.infra = "mq: " + err.Error()
+		return p
+	}
+	p.mq = &mq
+	var k *Conc
+	var lines []string
+	ok := false
+	for attempt := int64(0); attempt < 20 && !ok; attempt++ {
+		k = newConc(c, seed+attempt*104729)
+		k.metric = true
+		k.scale = pick(k.rng, linearNumPool)
+		for i := 0; i < 4; i++ {
+			k.Nums[i] = fnum(float64(i) * k.scale)
+			k.Val["n"+strconv.Itoa(i)] = k.Nums[i]
+		}
+		lines = lines[:0]
+		ok = true
+		for i := range c.DB {
+			l, err := k.lineOf(&c.DB[i], i+1)
+			if err != nil {
+				out.infra = "line: " + err.Error()
+				return p
+			}
+			var fits bool
+			l, fits = pad(l, c.DB[i].Fmt, lenUnit*maxInt(c.DB[i].Len, 1))
+			if !fits {
+				ok = false
+				out.infra = fmt.Sprintf("line longer than %d bytes", lenUnit*maxInt(c.DB[i].Len, 1))
+				break
+			}
+			lines = append(lines, l)
+		}
+		if ok {
+			if err := selfCheck(k, c, lines); err != nil {
+				ok = false
+				out.infra = "concretiser self-check: " + err.Error()
+			}
+		}
+	}
+	if !ok {
+		return p
+	}
+	out.infra = ""
+	unitNs := int64(mq.Unit) * 1e9
+	base := int64(baseSec) * 1e9
+	var entries []CEntry
+	for i, e := range c.DB {
+		lbls := map[string]string{}
+		for n, v := range e.S {
+			if v != "" {
+				lbls[k.Name[n]] = k.val(v)
+			}
+		}
+		ty := 1
+		if e.Ty == "metric" {
+			ty = 2
+		}
+		off := []int64{0, unitNs - 1, k.rng.Int63n(unitNs)}[k.rng.Intn(3)]
+		entries = append(entries, CEntry{Labels: lbls, TsNs: base + int64(e.T)*unitNs + off, Line: lines[i], Type: ty, ID: i + 1, Value: 0})
+	}
+	k.FromNs = base + int64(c.Q.From)*unitNs
+	k.ToNs = base + int64(c.Q.To)*unitNs
+	p.k, p.lines, p.entries = k, lines, entries
+	p.req = CRequest{Query: k.metricQueryText(&c.Q, &mq), StartNs: k.FromNs, EndNs: k.ToNs, StepS: strconv.Itoa(mq.Step * mq.Unit)}
+	return p
+}
+
+func maxInt(a, b int) int {
+	if a > b {
+		return a
+	}
+	return b
+}
+
+type mpt struct {
+	ts  float64
+	val float64
+	opt bool
+}
+
+func (p *prepared) scaleOf() float64 {
+	switch p.mq.Fn {
+	case "bytes_rate", "bytes_over_time":
+		return lenUnit
+	}
+	if isUnwrapFn(p.mq.Fn) {
+		return p.k.scale
+	}
+	return 1
+}
+
+func (p *prepared) concSeries(ss []MSeries) map[string][]mpt {
+	out := map[string][]mpt{}
+	sc := p.scaleOf()
+	if p.mq.Agg == "count" {
+		sc = 1
+	}
+	for _, s := range ss {
+		lt := labelsText(p.k.concLabels(s.Lbls, ""))
+		for _, pt := range s.Pts {
+			den := float64(pt.Den)
+			if isRate(p.mq.Fn) && p.mq.Agg != "count" {
+				den *= float64(p.mq.Unit)
+			}
+			out[lt] = append(out[lt], mpt{ts: float64(baseSec) + float64(pt.T*p.mq.Unit), val: float64(pt.Num) * sc / den, opt: pt.Opt})
+		}
+	}
+	return out
+}
+
+func near(a, b float64) bool {
+	if a == b {
+		return true
+	}
+	d := math.Abs(a - b)
+	return d <= 1e-9*math.Max(math.Abs(a), math.Abs(b))
+}
+
+// seriesAgree: every observed point is allowed by the definition; every non-optional expected point is observed.
+func seriesAgree(exp, got map[string][]mpt) (bool, string, string) {
+	keys := map[string]bool{}
+	for l := range exp {
+		keys[l] = true
+	}
+	for l := range got {
+		keys[l] = true
+	}
+	var ks []string
+	for l := range keys {
+		ks = append(ks, l)
+	}
+	sort.Strings(ks)
+	for _, l := range ks {
+		e, g := exp[l], got[l]
+		mandatory := false
+		for _, x := range e {
+			if !x.opt {
+				mandatory = true
+			}
+		}
+		if len(g) == 0 && mandatory {
+			return false, "series-missing", fmt.Sprintf("series {%s} is missing", l)
+		}
+		if len(e) == 0 && len(g) > 0 {
+			return false, "series-unexpected", fmt.Sprintf("unexpected series {%s} with %d points (first at %.3f = %v)", l, len(g), g[0].ts, g[0].val)
+		}
+		seenTs := map[int64]bool{}
+		for _, y := range g {
+			key := int64(math.Round(y.ts * 1000))
+			if seenTs[key] {
+				return false, "duplicate-instant", fmt.Sprintf("series {%s} has two points at %.3f", l, y.ts)
+			}
+			seenTs[key] = true
+			okPt, tsKnown := false, false
+			var want float64
+			for _, x := range e {
+				if math.Abs(x.ts-y.ts) < 1e-6 {
+					tsKnown = true
+					want = x.val
+					if near(x.val, y.val) {
+						okPt = true
+					}
+				}
+			}
+			if !okPt {
+				if tsKnown {
+					return false, "value", fmt.Sprintf("series {%s} at %.3f: value %v, the definition gives %v", l, y.ts, y.val, want)
+				}
+				return false, "instant-unexpected", fmt.Sprintf("series {%s} has a point at %.3f (= %v) where the definition has none", l, y.ts, y.val)
+			}
+		}
+		for _, x := range e {
+			if x.opt {
+				continue
+			}
+			found := false
+			for _, y := range g {
+				if math.Abs(x.ts-y.ts) < 1e-6 {
+					found = true
+				}
+			}
+			if !found {
+				return false, "instant-missing", fmt.Sprintf("series {%s} has no point at %.3f (the definition gives %v)", l, x.ts, x.val)
+			}
+		}
+	}
+	return true, "", ""
+}
+
+func runMetricCase(w *World, p *prepared) *caseOutcome {
+	out, c, k, entries, mq := p.out, p.c, p.k, p.entries, p.mq
+	if err := w.Load(entries, time.Unix(baseSec, 0).UTC().Truncate(24*time.Hour)); err != nil {
+		out.infra = "load: " + err.Error()
+		return out
+	}
+	req := p.req
+	out.query = req.Query
+	obs := w.Run(req)
+	out.tags = append(tagsOf(k, c), "fn:"+mq.Fn, fmt.Sprintf("unit:%d", mq.Unit))
+	var mexp, mpl []MSeries
+	if err := json.Unmarshal(c.MExpRaw, &mexp); err != nil {
+		out.infra = "mexp: " + err.Error()
+		return out
+	}
+	exp := p.concSeries(mexp)
+	out.nontrivial = len(mexp) > 0
+	out.replay = map[string]any{"case": c, "logql": req.Query, "request": req, "entries": entries, "observed": obs,
+		"expected_series": exp2json(exp), "concretisation": map[string]any{"values": k.Val, "features": k.Feat, "names": k.Name,
+			"seconds_per_tick": mq.Unit, "bytes_per_len_unit": lenUnit, "unwrap_scale": k.scale}}
+	if len(obs.Unsup) > 0 {
+		out.infra = "chsql does not support: " + strings.Join(obs.Unsup, " | ")
+		return out
+	}
+	if obs.Code == 200 && len(obs.SQL) > 0 {
+		if d := danglingQualifiers(obs.SQL[len(obs.SQL)-1]); len(d) > 0 {
+			obs.Code = 500
+			obs.SQLErr = append(obs.SQLErr, "static: unknown identifier "+d[0]+" (chsql only reports it when a row reaches the expression)")
+			out.replay["static_analysis"] = d
+		}
+	}
+	out.replay["tables"] = w.Tables()
+	why := metricWhy(k, c, mq)
+	if obs.Code != 200 || obs.ParseErr != "" {
+		out.matchesPl = c.Dev && c.PlErr
+		if len(obs.SQLErr) > 0 {
+			out.sig = why + "|error:sql-rejected"
+			out.msg = fmt.Sprintf("the generated SQL is rejected: %s (query %s)", obs.SQLErr[0], req.Query)
+		} else {
+			out.sig = why + "|error:http-" + fmt.Sprint(obs.Code)
+			out.msg = fmt.Sprintf("query %s fails: code %d body %.300s %s", req.Query, obs.Code, obs.Body, obs.ParseErr)
+		}
+		return out
+	}
+	if obs.ResultType != "matrix" {
+		out.sig, out.msg = why+"|shape:resultType="+obs.ResultType, "metric query answered with resultType "+obs.ResultType
+		return out
+	}
+	got := map[string][]mpt{}
+	for _, s := range obs.Streams {
+		lt := labelsText(s.Labels)
+		for _, v := range s.Values {
+			ts, err1 := strconv.ParseFloat(v[0], 64)
+			val, err2 := strconv.ParseFloat(v[1], 64)
+			if err1 != nil || err2 != nil {
+				out.sig, out.msg = why+"|shape:unparsable-point", fmt.Sprintf("point %v of {%s} is not numeric", v, lt)
+				return out
+			}
+			got[lt] = append(got[lt], mpt{ts: ts, val: val})
+		}
+	}
+	out.replay["observed_series"] = exp2json(got)
+	ok, cls, msg := seriesAgree(exp, got)
+	if ok {
+		return out
+	}
+	if c.Dev && !c.PlErr {
+		json.Unmarshal(c.MPlRaw, &mpl)
+		plok, _, _ := seriesAgree(p.concSeries(mpl), got)
+		out.matchesPl = plok
+	}
+	out.sig = why + "|" + cls
+	out.msg = fmt.Sprintf("%s step=%ss: %s", req.Query, req.StepS, msg)
+	return out
+}
+
+func exp2json(m map[string][]mpt) map[string][]string {
+	out := map[string][]string{}
+	for l, pts := range m {
+		for _, p := range pts {
+			o := ""
+			if p.opt {
+				o = " (optional)"
+			}
+			out[l] = append(out[l], fmt.Sprintf("%.3f = %v%s", p.ts, p.val, o))
+		}
+	}
+	return out
+}
+
+// metricWhy names the structural trigger of a disagreement for metric queries (first rule that applies).
+func metricWhy(k *Conc, c *ACase, mq *AMq) string {
+	q := &c.Q
+	hasParser, hasDrop, hasLbl, hasLf, hasUnwrap := false, false, false, false, false
+	for _, st := range q.P {
+		switch st.K {
+		case "jsonp", "regexp", "json":
+			hasParser = true
+		case "drop", "dropv":
+			hasDrop = true
+		case "lbl":
+			hasLbl = true
+		case "lf":
+			hasLf = true
+		case "unwrap":
+			hasUnwrap = true
+		}
+	}
+	shortcut := (mq.Fn == "rate" || mq.Fn == "count_over_time") && mq.Range*mq.Unit >= 15 && !hasParser && !hasDrop && !hasLf && !hasUnwrap
+	if hasUnwrap && !hasParser && !hasDrop {
+		return "unwrap:no-labels-stage-before"
+	}
+	if shortcut && hasLbl {
+		return "shortcut15s:label-filter-not-planned"
+	}
+	if shortcut && (mq.Range*mq.Unit)%15 != 0 {
+		return "shortcut15s:range-not-multiple-of-15s"
+	}
+	if mq.Fn == "bytes_over_time" {
+		return "bytes_over_time:divided-by-range"
+	}
+	if mq.Agg != "" && mq.Grp == "" {
+		return "vector-aggregation:without-grouping-not-merged"
+	}
+	if w := devWhy(k, c); !strings.HasPrefix(w, "unattributed") {
+		return w
+	}
+	if isUnwrapFn(mq.Fn) {
+		for _, e := range c.DB {
+			if n := e.Fld["n"]; n == "" || n == "w" {
+				return "unwrap:non-numeric-counted-as-zero"
+			}
+		}
+	}
+	if mq.Step > mq.Range {
+		return "step-greater-than-range"
+	}
+	if mq.Step < mq.Range {
+		return "step-smaller-than-range"
+	}
+	parts := []string{"fn=" + mq.Fn}
+	if mq.Agg != "" {
+		parts = append(parts, "agg="+mq.Agg+":"+mq.Grp)
+	}
+	if mq.TopFn != "" {
+		parts = append(parts, mq.TopFn)
+	}
+	if mq.CmpL.Op != "" || mq.CmpA.Op != "" {
+		parts = append(parts, "cmp")
+	}
+	if shortcut {
+		parts = append(parts, "shortcut15s")
+	}
+	return "unattributed:" + strings.Join(parts, ",")
+}
